@@ -18,13 +18,20 @@ RULE = ('existing SOCKSPort configurations {no answer, unset with/without a __So
         'or an attempt fails; distinct = distinct cells')
 TRUSTED = ["the fake Tor's GETCONF/SETCONF semantics; MemoryReactor for connection attempts; set iteration order among several usable entries is "
            "unspecified, so the endpoint is compared as 'one of the candidates'"]
-ASSUMPTIONS = ["the requested port is a single word (no options) when given to _create_socks_endpoint"]
+ASSUMPTIONS = ["the requested port is a single word (no options) when given to _create_socks_endpoint",
+               "TorConfig.socks_endpoint / create_socks_endpoint with no port named are documented to take the very first SOCKSPort entry: "
+               "configurations whose first entry is auto / 0 / a bracketed IPv6 address (which denote no endpoint here) are left out for these two calls"]
 EXHAUSTIVE = {'quick': True, 'thorough': True}
 STORES = [
     ('noanswer', None), ('unset-nodefault', None), ('unset-default', None),
     ('lines', ['9050']), ('lines', ['9050 IsolateDestAddr']), ('lines', ['unix:/tmp/s WorldWritable']),
     ('lines', ['9050 IsolateDestAddr', 'unix:/tmp/s WorldWritable']), ('lines', ['127.0.0.1:9050', '9150 PreferIPv6 KeepAliveIsolateSOCKSAuth']),
     ('lines', ['0']), ('lines', ['auto']), ('lines', ['9050', '9051', '9052 IsolateSOCKSAuth', 'unix:/x']),
+    # entries that denote no endpoint for us (Tor chooses the port; bracketed IPv6) next to usable ones, before and after them
+    ('lines', ['unix:/run/tor/socks WorldWritable', 'auto IsolateDestAddr']), ('lines', ['auto IsolateDestAddr', '9050']),
+    ('lines', ['9050', '[::1]:9051 IsolateSOCKSAuth']), ('lines', ['[::1]:9051 IsolateSOCKSAuth']),
+    # the same first word twice, with different option words (Tor allows it for auto)
+    ('lines', ['auto', 'auto IsolateDestAddr IsolateDestPort']), ('lines', ['auto IsolateDestAddr', 'auto', '0 PreferIPv6']),
 ]
 REQS = [None, '9050', '905', '9999', 'unix:/tmp/s', '127.0.0.1:9050', '9150']
 PORTS = [9050, 9150]
@@ -48,12 +55,14 @@ def gen_cases(rng, tier):
     for (kind, lines), req in itertools.product(STORES, REQS):
         yield {'api': 'create', 'store': kind, 'lines': lines, 'req': req}
     for (kind, lines), req in itertools.product([s for s in STORES if s[0] == 'lines'], REQS + ['9050 IsolateDestAddr', '9998 IsolateDestAddr']):
-        if req is None and lines[0] in ('auto', '0'):
+        if req is None and first_word(lines[0]) in ('auto', '0'):
             continue    # Tor's own choice of port cannot be denoted from the configuration line (outside the quantifier)
+        if req is None and denote_py(first_word(lines[0])) is None:
+            continue    # "the very first SOCKSPort" is documented for this API; a first entry we cannot denote ([::1]:9051) is refused
         yield {'api': 'config', 'store': kind, 'lines': lines, 'req': req}
     # TorConfig.socks_endpoint(reactor, port): picks an entry Tor has, never configures
     for (kind, lines), req in itertools.product([s for s in STORES if s[0] == 'lines'], REQS + [9050, '9050 IsolateDestAddr', 'unix:/x']):
-        if req is None and lines[0] in ('auto', '0'):
+        if req is None and (first_word(lines[0]) in ('auto', '0') or denote_py(first_word(lines[0])) is None):
             continue
         yield {'api': 'sync', 'store': kind, 'lines': lines, 'req': req}
     yield {'api': 'sync', 'store': 'unset-nodefault', 'lines': None, 'req': None}
